@@ -430,6 +430,9 @@ def link_coverage(ctx, ids, obs, model):
         ctx.count('link:outside-both' + sfx)
         if not (wire_ok and side_ok):
             ctx.count('link:outside-both-and-statement-fails' + sfx)
+        # which operators the templates outside the proved class use (top-level ids; sample files: 'file')
+        feats = sorted({str(i // 1000) for i in ids if 200000 <= i < 300000}) if ids else ['file']
+        ctx.count('link:outside-shape:%s:%s' % ('ok' if wire_ok and side_ok else 'fails', '+'.join(feats) or 'none'))
 # --- w5-c09wire (end) -------------------------------------------------------------------------
 
 
